@@ -23,7 +23,8 @@ Print Assumptions C03_running_has_witness.
 
 (** --- engine level (Engine, see C01.v for the scope): whenever the owning worker has nothing in flight for
     the instance, no command is stored or being executed and no task is recorded running, the instance is
-    settled and the verdict agrees with its tasks - for every DAG (unique ids, dependencies among the tasks,
+    settled and the verdict agrees with its tasks (success exactly when every task is success or skipped,
+    failed only with a failed task, blocked only with a blocked task) - for every DAG (unique ids, dependencies among the tasks,
     acyclic as witnessed by a rank), every outcome of every phase, every interleaving of runs, parser and
     command watcher, every crash point and every watchdog intervention.  Hypotheses on the history: commands
     are issued and picked up only while nothing is in flight ([cmdquiet]) and every executed command re-armed
@@ -38,8 +39,9 @@ Theorem C03_engine_settles_and_agrees : forall tasks deps validate (rank : Z -> 
   (forall t d, In t tasks -> In d (deps t) -> In d tasks) ->
   forall ls s, run tasks deps validate true true boot ls = Some s -> Quiescent tasks s ->
   ins s <> IRunning /\
-  (ins s = ISuccess <-> forall t, In t tasks -> store s t = SSuccess) /\
-  (ins s = IFailed -> exists t, In t tasks /\ store s t = SFailed).
+  (ins s = ISuccess <-> forall t, In t tasks -> done (store s t) = true) /\
+  (ins s = IFailed -> exists t, In t tasks /\ store s t = SFailed) /\
+  (ins s = IBlocked -> exists t, In t tasks /\ store s t = SBlocked).
 Proof.
   intros tasks deps validate rank Hnd Hrank Hclosed ls s Hr Hq.
   apply (settled tasks deps s); [|exact Hq].
